@@ -37,6 +37,10 @@ OBLIGATIONS = [
     'C16.r2a_oracle_accepts_generated', 'C16.r2a_done_while_pending_counterexample',
     # kernel FSM (source of ap_done): done is raised only from the state reached after all_sent
     'C16.vitis_done_only_after_all_sent',
+    # Axi2Clk / Axi2ClkFSM sequencing
+    'Axi.Clk.stepG_eq_step', 'Axi.Clk.train_from_low', 'Axi.Clk.clk_counts_accepted_beat', 'Axi.Clk.pulseTrain_count',
+    'C16.clk_generated_counts_accepted_beat', 'Axi.Clk.inv_step', 'Axi.Clk.clk_oracle_accepts_model',
+    'Axi.Clk.clk_oracle_accepts_generated', 'Axi.Clk.clk_stale_count_counterexample',
 ]
 
 T1_CLASSES = ['Reg', 'And2', 'Or2', 'Not', 'Buf', 'Range', 'Constant', 'Axi2ClkFSM', 'VitisKernelFSM']
@@ -148,8 +152,54 @@ class RealR2A:
                 ('clk', 1)]
 
 
+class RealClk:
+    """the real Axi2Clk (structural gating + Axi2ClkFSM) inside a fresh HWSystem; W is unused (clk_count is 64 bits)"""
+    kind = 'clk'
+    CW = 64
+
+    def __init__(self, W, DW):
+        import py4hw
+        from py4hw.logic.bus.axi import AXI4StreamInterface
+        from py4hw.emulation.vitiswrapping import Axi2Clk
+        self.W, self.DW = W, DW
+        s = self.sys = py4hw.HWSystem()
+        self.ap_start, self.ap_reset, self.ap_done = s.wire('ap_start', 1), s.wire('ap_reset', 1), s.wire('ap_done', 1)
+        self.clk_out, self.load_outs, self.active = s.wire('clk_out', 1), s.wire('load_outs', 1), s.wire('active', 1)
+        self.stream = AXI4StreamInterface(s, 'stream', dw=DW)
+        self.dut = Axi2Clk(s, 'dut', self.ap_start, self.ap_reset, self.ap_done, self.stream, self.clk_out, self.load_outs, self.active)
+        self.fsm = self.dut.children['clk_count']
+        self.sim = s.getSimulator()
+
+    def cfg(self):
+        return f'{self.CW}'
+
+    def state(self):
+        return [self.active.get(), self.fsm.state, self.fsm.target, self.dut._wires['clk_count'].get(), self.clk_out.get(),
+                self.load_outs.get()]
+
+    def wires(self):
+        return [self.dut._wires['active_handshake'].get()]
+
+    def obs(self):
+        return [self.clk_out.get(), self.load_outs.get(), self.active.get(), self.stream.tready.get()]
+
+    def cycle(self, i):
+        self.ap_start.put(i[0]); self.ap_reset.put(i[1]); self.ap_done.put(i[2])
+        self.stream.tvalid.put(i[3]); self.stream.tdata.put(i[4])
+        self.sim.clk(1)
+
+    def poke_ops(self, i):
+        return [('poke', self.ap_start, i[0]), ('poke', self.ap_reset, i[1]), ('poke', self.ap_done, i[2]),
+                ('poke', self.stream.tvalid, i[3]), ('poke', self.stream.tdata, i[4]), ('clk', 1)]
+
+
+KINDS = {'a2r': ('Axi2Reg', RealA2R), 'r2a': ('Reg2Axi', RealR2A), 'clk': ('Axi2Clk', RealClk)}
+BLOCK2KIND = {v[0]: k for k, v in KINDS.items()}
+BLOCK2KIND.update({k: k for k in KINDS})
+
+
 def make(kind, W, DW):
-    return RealA2R(W, DW) if kind == 'a2r' else RealR2A(W, DW)
+    return KINDS[kind][1](W, DW)
 
 
 # ------------------------------------------------------------------------------------------------ schedules
@@ -262,7 +312,51 @@ def gen_r2a_pending_done(rng, blk, n, style):
         yield i
 
 
-STYLES = {'a2r': ['any', 'any', 'literal', 'nodone', 'storm'],
+def gen_clk(rng, blk, n, style):
+    """Axi2Clk: beats with small values; TDATA keeps CHANGING after the handshake (up, down, below the current count, 0, huge)
+    while the FSM is counting; TVALID bursts (beats offered while busy / right after END); control pulses at any time"""
+    DW = blk.DW
+    small = lambda: rng.choice([1, 1, 2, 2, 3, 3, 4, 5, 6, 7])
+    data = small()
+    for t in range(n):
+        active = blk.active.get()
+        busy = blk.fsm.state != 0
+        cnt = blk.dut._wires['clk_count'].get()
+        start = 1 if rng.chance(1, 2 if not active else 12) else 0
+        reset = 1 if rng.chance(1, 40) else 0
+        done = 1 if rng.chance(1, 40) else 0
+        if style == 'storm':
+            reset = 1 if rng.chance(1, 8) else 0
+            done = 1 if rng.chance(1, 8) else 0
+        if busy:
+            k = rng.randint(0, 7)
+            if k == 0:
+                pass                                   # TDATA frozen (the only case the repo's testbench exercises)
+            elif k == 1:
+                data = data + rng.randint(1, 5)        # up
+            elif k == 2:
+                data = max(0, data - rng.randint(1, 3))  # down
+            elif k == 3:
+                data = max(0, cnt - rng.randint(0, 2))   # at / below the current count
+            elif k == 4:
+                data = 0
+            elif k == 5:
+                data = cnt + 1                         # exactly the next count value
+            elif k == 6:
+                data = rng.bits(DW)
+            else:
+                data = small()
+            tvalid = 1 if rng.chance(1, 2) else 0
+        else:
+            if style == 'edge' and rng.chance(1, 8):
+                data = rng.choice([0, (1 << 64) - 1, 1 << 64, (1 << DW) - 1])   # outside the monitored domain / wrap
+            elif not rng.chance(1, 3):
+                data = small()
+            tvalid = 1 if rng.chance(2, 3 if style != 'sparse' else 8) else 0
+        yield (start, reset, done, tvalid, data & ((1 << DW) - 1))
+
+
+STYLES = {'clk': ['any', 'any', 'sparse', 'storm', 'any', 'edge', 'sparse'], 'a2r': ['any', 'any', 'literal', 'nodone', 'storm'],
           'r2a': ['quiet', 'quiet', 'literal', 'pending_done', 'quiet', 'literal', 'any', 'pending_done', 'storm']}
 
 
@@ -309,6 +403,11 @@ class Batch:
         if kind == 'a2r':
             self.lines.append(f'oa2r|{W}|{ost}|{oc}')
             j['py_verdicts'] = [py_oracle_a2r(W, o_init, tr)]
+        elif kind == 'clk':
+            # strict: every accepted beat counts (re-derives the stale-count finding); tolerant: what is proved of the model
+            self.lines.append(f'oclk|1,{cfg}|{ost}|{oc}')
+            self.lines.append(f'oclk|0,{cfg}|{ost}|{oc}')
+            j['py_verdicts'] = [py_oracle_clk(True, int(cfg), o_init, tr), py_oracle_clk(False, int(cfg), o_init, tr)]
         else:
             # mode 0: literal assumption, every clause (re-derives the known finding); mode 2: literal assumption, the
             # state-independent clauses in EVERY state and the doneQuiet-dependent ones whenever no violation is outstanding
@@ -361,6 +460,45 @@ def py_oracle_a2r(W, o0, tr):
     return 'ok'
 
 
+def py_oracle_clk(strict, CW, o0, tr):
+    """transcription of Spec.Clk.check: phase = ('idle', fresh) | ('high', T, k) | ('low', T, k) | ('fin',) | ('unknown',)"""
+    ph, stale, o = ('idle', True), False, o0
+    for t, (i, o2) in enumerate(tr):
+        start, reset, done, tvalid, tdata = i
+        acc = tvalid == 1 and o[3] == 1
+        act = 0 if (reset == 1 or done == 1) else (1 if start == 1 else o[2])
+        exp = {'idle': (0, 0), 'high': (1, 0), 'low': (0, 0), 'fin': (0, 1), 'unknown': None}[ph[0]]
+        cl = [('ready_iff_active', o[3] == o[2] and o2[3] == o2[2]), ('active_rule', o2[2] == act),
+              ('clk_out_follows_accepted_beat', exp is None or o2[0] == exp[0]),
+              ('load_outs_after_last_pulse', exp is None or o2[1] == exp[1])]
+        for n, ok in cl:
+            if not ok:
+                return f'fail {t} {n} {1 if stale else 0}'
+        if ph[0] == 'idle':
+            if acc:
+                if 1 <= tdata < (1 << CW):
+                    if ph[1]:
+                        ph, stale = ('high', tdata, 0), False
+                    elif strict:
+                        ph, stale = ('high', tdata, 0), True
+                    else:
+                        ph, stale = ('unknown',), False
+                else:
+                    ph, stale = ('unknown',), False
+            else:
+                ph, stale = ('idle', True), False
+        elif ph[0] == 'high':
+            ph = ('low', ph[1], ph[2] + 1)
+        elif ph[0] == 'low':
+            ph = ('fin',) if ph[2] == ph[1] else ('high', ph[1], ph[2])
+        elif ph[0] == 'fin':
+            ph, stale = ('idle', False), False
+        else:
+            ph, stale = (('idle', False) if o2[1] == 1 else ('unknown',)), False
+        o = o2
+    return 'ok'
+
+
 def py_oracle_r2a(mode, W, DW, KW, o0, tr):
     """mode 0 literal / 1 quiet / 2 tolerant, as Spec.R2A.check"""
     keep = ((1 << ((W + 7) // 8)) - 1) % (1 << KW)
@@ -406,8 +544,23 @@ def events(j):
     kind, ev = j['kind'], {}
     pre = j['o0']
     prev_x = False
-    for i, o in zip(j['ins'], j['obs']):
-        if kind == 'a2r':
+    prev_data, busy_guess = None, False
+    for i, o, row in zip(j['ins'], j['obs'], j['rows']):
+        if kind == 'clk':
+            clk_out, load_outs, active, tready = pre
+            x = i[3] == 1 and tready == 1
+            st_after, cnt_after = row[1], row[3]
+            counting = st_after in (1, 2, 3)
+            names = [('xfer', x), ('xfer_while_counting', x and busy_guess), ('xfer_right_after_end', x and load_outs == 1),
+                     ('tdata_up_while_counting', busy_guess and prev_data is not None and i[4] > prev_data),
+                     ('tdata_down_while_counting', busy_guess and prev_data is not None and i[4] < prev_data),
+                     ('tdata_below_count', busy_guess and i[4] < cnt_after), ('tdata_zero_while_counting', busy_guess and i[4] == 0),
+                     ('tdata_eq_count_while_counting', busy_guess and i[4] == cnt_after),
+                     ('beat_zero_or_huge', x and not busy_guess and not (1 <= i[4] < (1 << 64))),
+                     ('reset_while_counting', busy_guess and i[1] == 1), ('done_while_counting', busy_guess and i[2] == 1),
+                     ('load_outs_pulse', o[1] == 1), ('clk_pulse', o[0] == 1)]
+            busy_guess, prev_data = counting, i[4]
+        elif kind == 'a2r':
             active, loaded, q, tready = pre
             x = i[3] == 1 and tready == 1
             names = [('xfer', x), ('back_to_back', x and prev_x), ('xfer_while_loaded', x and loaded == 1),
@@ -442,9 +595,9 @@ def analyse(res, j, out):
     res.hist(kind + '_widths', f"W{j['W']}_DW{j['DW']}")
     res.count((kind, j['W'], j['DW'], tuple(j['init_path']), tuple(j['ins'])), hist={kind + '_stream': j['label'].split(':')[0]})
     res.cov['cycles'] = res.cov.get('cycles', 0) + len(j['ins'])
-    replay = dict(block='Axi2Reg' if kind == 'a2r' else 'Reg2Axi', W=j['W'], DW=j['DW'], init_path=j['init_path'],
+    replay = dict(block=KINDS[kind][0], W=j['W'], DW=j['DW'], init_path=j['init_path'],
                   cycles=[list(i) for i in j['ins']], label=j['label'],
-                  inputs='start,reset,done,tvalid,tdata' if kind == 'a2r' else 'start,reset,done,load_outs,reg_in,tready',
+                  inputs='start,reset,done,load_outs,reg_in,tready' if kind == 'r2a' else 'start,reset,done,tvalid,tdata',
                   done_while_pending=bool(ev.get('done_while_pending')))
     if out is None:
         out = [None, None] + j['py_verdicts']   # Lean side unavailable: judge with the transcription of the oracle
@@ -457,11 +610,12 @@ def analyse(res, j, out):
         if got is not None and got != want:
             g, w = got.split(';'), want.split(';')
             t = next((k for k in range(min(len(g), len(w))) if g[k] != w[k]), min(len(g), len(w)))
-            names = (['active', 'loaded', 'q'] + A2R_WIRES) if kind == 'a2r' else (['active', 'tvalid', 'tdata', 'sent'] + R2A_WIRES)
+            names = {'a2r': ['active', 'loaded', 'q'] + A2R_WIRES, 'r2a': ['active', 'tvalid', 'tdata', 'sent'] + R2A_WIRES,
+                     'clk': ['active', 'fsm.state', 'fsm.target', 'clk_count', 'clk_out', 'load_outs', 'active_handshake']}[kind]
             res.disagree(f'{kind}-{tag}', dict(replay, cycle=t, names=names, lean=g[t] if t < len(g) else None,
                                               python=w[t] if t < len(w) else None, cycles=replay['cycles'][:t + 1]))
     for k, verdict in enumerate(out[2:]):
-        mode = 'literal' if k == 0 else 'tolerant'
+        mode = ('strict' if kind == 'clk' else 'literal') if k == 0 else 'tolerant'
         v = verdict.split()
         res.hist(kind + '_oracle' + ('' if k == 0 else '_tolerant'), v[0])
         if v[0] == 'fail' and int(v[1]) < j['npre']:
@@ -472,8 +626,10 @@ def analyse(res, j, out):
             res.fail(f"{replay['block']}: oracle clause {v[2]} fails at cycle {t}" + (' (tolerant mode)' if k else ''),
                      dict(replay, cycles=replay['cycles'][:t + 1], cycle=t, clause=v[2], oracle_mode=mode, outputs_before=pre,
                           inputs_at_cycle=list(j['ins'][t]), outputs_after=j['obs'][t],
-                          outputs='active,loaded,q,tready' if kind == 'a2r' else 'tvalid,tdata,tlast,tkeep,sent,active',
-                          done_while_pending=(v[3] == '1') if len(v) > 3 else replay['done_while_pending']))
+                          outputs={'a2r': 'active,loaded,q,tready', 'r2a': 'tvalid,tdata,tlast,tkeep,sent,active',
+                                   'clk': 'clk_out,load_outs,active,tready'}[kind],
+                          done_while_pending=(kind == 'r2a' and len(v) > 3 and v[3] == '1'),
+                          stale_count=(kind == 'clk' and len(v) > 3 and v[3] == '1')))
         elif v[0] not in ('ok', 'stop'):
             res.broken.append(('correspondence', 'oracle', f'unexpected verdict {verdict!r}'))
 
@@ -488,7 +644,7 @@ def corpus_stream(res, b):
             res.broken.append(('correspondence', 'corpus', f'{f}: {e}'))
             continue
         for k, sc in enumerate(doc.get('scenarios', [])):
-            kind = 'a2r' if sc['block'] == 'Axi2Reg' else 'r2a'
+            kind = BLOCK2KIND[sc['block']]
             b.run_real(kind, sc['W'], sc['DW'], [tuple(c) for c in sc['cycles']], f"corpus:{os.path.basename(f)}:{sc.get('name', k)}")
             n += 1
     return n
@@ -497,7 +653,7 @@ def corpus_stream(res, b):
 def exhaustive_stream(res, b, kind, W, DW, data_vals, max_states=64):
     """every (reachable state, input) transition of the real block at this width, reached by replaying a path on a
     fresh instance; the model is started from the observed state"""
-    if kind == 'a2r':
+    if kind in ('a2r', 'clk'):
         inputs = [(s, r, d, v, x) for s in (0, 1) for r in (0, 1) for d in (0, 1) for v in (0, 1) for x in data_vals]
     else:
         inputs = [(s, r, d, l, x, y) for s in (0, 1) for r in (0, 1) for d in (0, 1) for l in (0, 1) for x in data_vals for y in (0, 1)]
@@ -506,7 +662,8 @@ def exhaustive_stream(res, b, kind, W, DW, data_vals, max_states=64):
     state_of = {(): tuple(blk.state())}
     todo, deferred = [()], []
     n = 0
-    flag = 1 if kind == 'a2r' else 3      # index of loaded / sent in the state tuple
+    flag = {'a2r': 1, 'r2a': 3, 'clk': None}[kind]      # index of loaded / sent in the state tuple
+    nst = {'a2r': 3, 'r2a': 4, 'clk': 6}[kind]
     while todo or deferred:
         if not todo:                      # states only reachable by violating the literal assumption on done
             path, st = deferred.pop(0)
@@ -519,11 +676,11 @@ def exhaustive_stream(res, b, kind, W, DW, data_vals, max_states=64):
         for i in inputs:
             ins, rows, obs = b.run_real(kind, W, DW, [i], f'exhaustive:{kind}:W{W}', init_path=path)
             n += 1
-            st = tuple(rows[0][:3 if kind == 'a2r' else 4])
+            st = tuple(rows[0][:nst])
             if st not in seen and len(seen) < max_states:
                 # prefer paths on which done is only pulsed with the loaded / sent flag up: the oracle judges the whole history
                 # since power-up and stops where the property's assumption is violated
-                if i[2] == 1 and state_of[path][flag] != 1:
+                if flag is not None and i[2] == 1 and state_of[path][flag] != 1:
                     deferred.append((path + (i,), st))
                     continue
                 seen[st], state_of[path + (i,)] = path + (i,), st
@@ -540,7 +697,7 @@ def random_stream(res, b, rng, kind, n_sched, max_len, widths):
         W = max(1, W)
         style = STYLES[kind][k % len(STYLES[kind])]
         n = r.randint(4, max_len)
-        gen = gen_a2r if kind == 'a2r' else (gen_r2a_pending_done if style == 'pending_done' else gen_r2a)
+        gen = gen_clk if kind == 'clk' else gen_a2r if kind == 'a2r' else (gen_r2a_pending_done if style == 'pending_done' else gen_r2a)
         ins, rows, obs = b.run_real(kind, W, DW, lambda blk: gen(r, blk, n, style), f'random-{style}:{k}')
         if k < 2:
             res.sample(dict(block=kind, W=W, DW=DW, style=style, cycles=[list(i) for i in ins[:12]],
@@ -551,7 +708,7 @@ def random_stream(res, b, rng, kind, n_sched, max_len, widths):
 
 def ports_stream(res, b):
     def model_side(out):
-        for kind, line in zip(('a2r', 'r2a'), out or []):
+        for kind, line in zip(('a2r', 'r2a', 'clk'), out or []):
             model = [(p.split(':')[0], p.split(':')[1] == '1') for p in line.split(',') if p]
             blk = make(kind, 8, 16)
             ins = [p.name for p in blk.dut.inPorts]
@@ -559,8 +716,8 @@ def ports_stream(res, b):
             mi, mo = [n for n, d in model if d], [n for n, d in model if not d]
             if ins != mi or outs != mo:
                 res.disagree('ports', dict(block=kind, python_in=ins, python_out=outs, model_in=mi, model_out=mo))
-    b.add_raw(['ports|a2r', 'ports|r2a'], model_side)
-    for kind in ('a2r', 'r2a'):
+    b.add_raw(['ports|a2r', 'ports|r2a', 'ports|clk'], model_side)
+    for kind in ('a2r', 'r2a', 'clk'):
         blk = make(kind, 8, 16)
         ins = [p.name for p in blk.dut.inPorts]
         outs = [p.name for p in blk.dut.outPorts]
@@ -569,8 +726,8 @@ def ports_stream(res, b):
         st = blk.stream
         s2s = [n for n, w in st.sourceToSink]
         k2s = [n for n, w in st.sinkToSource]
-        want_in = set(s2s) if kind == 'a2r' else set(k2s)
-        want_out = set(k2s) if kind == 'a2r' else set(s2s)
+        want_in = set(s2s) if kind != 'r2a' else set(k2s)
+        want_out = set(k2s) if kind != 'r2a' else set(s2s)
         if not (want_in <= set(ins) and want_out <= set(outs)) or set(s2s) & set(k2s) or 'tready' not in k2s or 'tvalid' not in s2s:
             res.fail(f'{kind}: stream port directions', dict(block=kind, inPorts=ins, outPorts=outs, sourceToSink=s2s, sinkToSource=k2s))
 
@@ -599,11 +756,11 @@ def net_stream(res, rng, n):
     nb = D.NetBatch(res, 'net-sim')
     for k in range(n):
         r = rng.fork(('net', k))
-        kind = 'a2r' if k % 2 == 0 else 'r2a'
+        kind = ('a2r', 'r2a', 'clk')[k % 3]
         DW = r.choice([8, 16, 64])
         W = r.choice([1, 5, DW, DW + 3])
         blk = make(kind, W, DW)
-        gen = gen_a2r if kind == 'a2r' else gen_r2a
+        gen = {'a2r': gen_a2r, 'r2a': gen_r2a, 'clk': gen_clk}[kind]
         ops = []
         # NetBatch executes the ops itself: use a twin block to drive the adaptive generator
         twin = make(kind, W, DW)
@@ -634,7 +791,7 @@ def main(res, tier, rng, replay):
         res.broken.append(('translator', 'py2lean', e))
     lap('regenerate')
     if not res.proof_stage('Py4hwV.Props.C16', OBLIGATIONS):
-        lean_build(['Py4hwV.Proto.AxiSpec'])   # what the driver needs (definitions only), even when a proof is broken
+        lean_build(['Py4hwV.Proto.AxiSpec', 'Py4hwV.Proto.AxiClk'])   # what the driver needs (definitions only), even when a proof is broken
     lap('proof_stage')
     quick = tier == 'quick'
     if ok:
@@ -650,7 +807,7 @@ def main(res, tier, rng, replay):
         for f in doc.get('failing_inputs', []) + [dict(replay=d['detail']) for d in doc.get('no_longer_checks', []) if isinstance(d.get('detail'), dict)]:
             r = f['replay']
             if 'cycles' in r and 'block' in r and 'DW' in r:
-                b.run_real('a2r' if r['block'] in ('Axi2Reg', 'a2r') else 'r2a', r['W'], r['DW'], [tuple(c) for c in r['cycles']],
+                b.run_real(BLOCK2KIND[r['block']], r['W'], r['DW'], [tuple(c) for c in r['cycles']],
                            'replay:0', init_path=tuple(tuple(c) for c in r.get('init_path', [])))
     corpus_stream(res, b)
     ports_stream(res, b)
@@ -661,11 +818,14 @@ def main(res, tier, rng, replay):
         exhaustive_stream(res, b, 'r2a', W, 8, list(range(1 << W)))
     # register wider than the stream (truncation on the way out / zero extension on the way in)
     exhaustive_stream(res, b, 'r2a', 9 if quick else 10, 8, [0, 1, 255, 256, 511])
+    # Axi2Clk: every (FSM state, count, target) reached with beats 0..3 x every input with TDATA 0..4 (changing TDATA included)
+    exhaustive_stream(res, b, 'clk', 1, 8, [0, 1, 2, 3, 4] if quick else [0, 1, 2, 3, 4, 5, 255], max_states=48 if quick else 120)
     lap('corpus_ports_tkeep_exhaustive(real side)')
     n = 1000 if quick else 30000
     L = 40 if quick else 120
     random_stream(res, b, rng.fork('a2r'), 'a2r', n, L, [8, 16, 32, 64, 64, 128])
     random_stream(res, b, rng.fork('r2a'), 'r2a', n, L, [8, 16, 32, 64, 64, 128])
+    random_stream(res, b, rng.fork('clk'), 'clk', n // 2, L + 20, [8, 16, 64, 64, 128])
     lap('random(real side)')
     b.flush()
     lap('driver session (model, generated composition, oracle)')
